@@ -668,7 +668,13 @@ class Exec:
     def load(self, st, loc):
         r = loc.root
         if r[0] == 'L':
-            v = st.frame(r[1]).locals[r[2]]
+            fr_ = st.frame(r[1])
+            if r[2] not in fr_.locals:
+                # a non-capturing closure is a zero-sized local that the MIR never assigns (`let f = |v| ..; f(x)` borrows `_k` directly)
+                t = (fr_.fn.types.get(r[2]) or '').strip()
+                if t.startswith('{closure@'):
+                    fr_.locals[r[2]] = Closure(self.prog.closures[t].name if t in self.prog.closures else t, ())
+            v = fr_.locals[r[2]]
         elif r[0] == 'H':
             v = st.heap[r[1]]
         else:
